@@ -207,5 +207,41 @@ func buildC01(cfg *mon.Config) []*mon.Sub {
 		},
 		Exec: c01Exec, Sample: c01Sample,
 	}
-	return []*mon.Sub{typed, shape, small}
+	long := &mon.Sub{
+		Name: "long-chains-and-calls", Rule: "for every n in 1..70: a right-nested and a left-nested chain of n operands over + - * (integers), a call of Sum, Max and Array with n arguments, an Array of n elements indexed at its last element, and n nested parentheses / nested calls; checked like every other tree (program and value); a case is one printing",
+		Exhaustive: true, DistinctByGen: true, Floor: 100,
+		Gen: func(emit func(string)) {
+			e := &env{names: []string{"a", "b"}, vals: []Val{vInt(7), vInt(5)}}
+			ee := encEnv(e)
+			lit := func(i int) *model.Node { return leafConst(strconv.Itoa(2 + i%9)) }
+			ops := []string{"+", "-", "*"}
+			for n := 1; n <= 70; n++ {
+				right, left := lit(n), lit(0)
+				for i := n - 1; i >= 1; i-- {
+					right = binNode(ops[i%3], lit(i), right)
+				}
+				for i := 1; i < n; i++ {
+					left = binNode(ops[i%3], left, lit(i))
+				}
+				var args []*model.Node
+				for i := 0; i < n; i++ {
+					args = append(args, lit(i))
+				}
+				nest := leafVar("a")
+				for i := 0; i < n; i++ {
+					nest = &model.Node{Op: "call", Lit: "Abs", Kids: []*model.Node{unNode("neg", nest)}}
+				}
+				trees := []*model.Node{right, left,
+					{Op: "call", Lit: "Sum", Kids: append(append([]*model.Node{}, args...), leafVar("b"))},
+					{Op: "call", Lit: "Max", Kids: append(append([]*model.Node{}, args...), leafVar("a"))},
+					{Op: "index", Kids: []*model.Node{{Op: "call", Lit: "Array", Kids: args}, leafConst(strconv.Itoa(n - 1))}},
+					nest}
+				for _, t := range trees {
+					emit("tree\x00unsafe\x00" + strconv.Itoa(n) + "\x00" + encNode(t) + "\x00" + ee)
+				}
+			}
+		},
+		Exec: c01Exec, Sample: c01Sample,
+	}
+	return []*mon.Sub{typed, shape, small, long}
 }
